@@ -185,8 +185,8 @@ Definition reconstruct (o : dec_opts) (last reference : option decoded_picture) 
       match into_width_and_height fmt with
       | None => Err EPictureFormatInvalid
       | Some (w, h) =>
-          (* a picture without samples cannot be decoded *)
-          if (w =? 0) || (h =? 0) then Err EPictureFormatInvalid else
+          (* a picture without samples cannot be decoded (w, h are u16 in the code: <= 0 is = 0) *)
+          if (w <=? 0) || (h <=? 0) then Err EPictureFormatInvalid else
           let mb_per_line := (w + 15) / 16 in
           let mb_height := (h + 15) / 16 in
           let levw := mb_per_line * 16 in
